@@ -55,6 +55,7 @@ type Contract struct {
 	File          string
 	Line          int
 	Used          bool
+	Renamed       map[string]string // names of the contract bound by elimination to renamed parameters / loop variables
 }
 
 type GhostDecl struct {
